@@ -5,7 +5,7 @@
                                _get_body_or_chunks, build, build_response, update_body
    after the repaired Python (case-insensitive placement of Content-Length / Content-Type /
    Connection; update_body keeps the body decoded; parenthesised default scheme in
-   build(for_proxy=True)).  Header maps are Python dicts = the insertion-ordered dict of
+   build(for_proxy=True); build_response adds no Content-Length to a body-less response that had none).  Header maps are Python dicts = the insertion-ordered dict of
    Lib/PyStr.v, keys CASE-SENSITIVE.  Definitions only. *)
 From PM Require Import Lib.Bytes Lib.PyStr Http.Url Http.Chunk Http.Parser.
 From Coq Require Import ZArith.
@@ -180,7 +180,10 @@ Definition build_response (p : parser) : result bytes :=
             | _ => []
             end in
   do body <- get_body_or_chunks p;
-  Ok (build_http_response status (or_empty (version p)) (reason p) (Some hs) body false false).
+  (* no_cl = not self.body and not self.has_header(b'content-length'): a body-less response received
+     without Content-Length is rebuilt without one *)
+  let no_cl := negb (truthy (Parser.body p)) && negb (has_header p CONTENT_LENGTH) in
+  Ok (build_http_response status (or_empty (version p)) (reason p) (Some hs) body false no_cl).
 
 (* HttpParser.update_body(body, content_type); gz = gzip.compress *)
 Definition update_body (gz : bytes -> bytes) (p : parser) (new_body content_type : bytes) : result parser :=
